@@ -175,12 +175,11 @@ theorem c19_offsets_rfc822 (t : Int) (h0 : 0 ≤ t) (h1 : t ≤ maxInstant) (pf 
     have := rfc_any t h0 h1 _ a b c d pf hpf
     rw [e] at this; exact this
 
-/-- **Epoch views.**  For a non-negative timestamp and `ms < 65536` (the field is a `uint16_t`):
-`as_millis = 1000·secs + ms` when that fits 64 bits, and `as_nanos = 10^6 · as_millis` when
-`10^9·secs + 10^6·ms` fits; `init_epoch_millis m` splits `m` so that `as_millis` returns `m`. -/
+/-- **Epoch views.** -/
 theorem c19_epoch_views :
-    (∀ dt : DateTime, 0 ≤ dt.timestamp → dt.millis < 65536 →
+    (∀ dt : DateTime, 0 ≤ dt.timestamp → dt.timestamp.toNat < u64 → dt.millis < 65536 →
       (1000 * dt.timestamp.toNat + dt.millis < u64 → asMillis dt = 1000 * dt.timestamp.toNat + dt.millis) ∧
+      asNanos dt = min (1000000000 * dt.timestamp.toNat + 1000000 * dt.millis) (u64 - 1) ∧
       (1000000000 * dt.timestamp.toNat + 1000000 * dt.millis < u64 → asNanos dt = 1000000 * asMillis dt)) ∧
     (∀ m : Nat, m < u64 →
       (initEpochMillis m).timestamp = (m / 1000 : Nat) ∧ (initEpochMillis m).millis = m % 1000 ∧
@@ -192,14 +191,18 @@ theorem c19_epoch_views :
     unfold asMillis
     rw [toU64_nonneg _ h0 (by omega), show Gen.Date.asMillisSecs = (1, 1000, false) from rfl, conv_up _ _ (by omega) (by omega)]
     exact Nat.mod_eq_of_lt hfit
-  refine ⟨fun dt h0 hms => ⟨key dt h0 hms, ?_⟩, ?_⟩
-  · intro hfit
-    rw [key dt h0 hms (by omega)]
+  have nanos : ∀ dt : DateTime, 0 ≤ dt.timestamp → dt.timestamp.toNat < u64 → dt.millis < 65536 →
+      asNanos dt = min (1000000000 * dt.timestamp.toNat + 1000000 * dt.millis) (u64 - 1) := by
+    intro dt h0 hlt hms
     unfold asNanos
+    simp only [show Gen.Date.asNanosSaturatingAdd = true from rfl, if_true]
     rw [toU64_nonneg _ h0 (by omega), show Gen.Date.asNanosSecs = (1, 1000000000, false) from rfl,
-      show Gen.Date.asNanosMillis = (1000, 1000000000, false) from rfl, conv_up _ _ (by omega) (by omega), conv_ms_ns _ hms]
-    show (1000000000 * dt.timestamp.toNat + 1000000 * dt.millis) % u64 = _
-    rw [Nat.mod_eq_of_lt (by omega)]
+      show Gen.Date.asNanosMillis = (1000, 1000000000, false) from rfl, conv_up_sat _ _ (by omega), conv_ms_ns _ hms, gadd_sat]
+    show min (min (1000000000 * dt.timestamp.toNat) 18446744073709551615 + 1000000 * dt.millis) 18446744073709551615 = _
+    omega
+  refine ⟨fun dt h0 hlt hms => ⟨key dt h0 hms, nanos dt h0 hlt hms, ?_⟩, ?_⟩
+  · intro hfit
+    rw [key dt h0 hms (by omega), nanos dt h0 hlt hms]
     omega
   · intro m hm
     have e : initEpochMillis m = mkDateTime ((m / 1000 : Nat) : Int) (m % 1000 % 65536) false [] := by
@@ -210,11 +213,11 @@ theorem c19_epoch_views :
     rw [key _ (by simp only [mkDateTime]; omega) (by simp only [mkDateTime]; omega) (by simp only [mkDateTime]; omega)]
     simp only [mkDateTime]; omega
 
-/-- outside that range `aws_timestamp_convert` saturates and the following addition wraps:
-20000000000 s + 1 ms (year 2603) has `as_nanos = 999999` -/
-theorem c19_nanos_saturation_witness :
-    asNanos { timestamp := 20000000000, millis := 1 } = 999999 ∧
-    asMillis { timestamp := 20000000000, millis := 1 } = 20000000000001 := by
+/-- the defect as found: with the plain `+` the sum of the two saturated terms wraps -/
+theorem c19_nanos_plain_add_wraps :
+    asNanosPlainAdd { timestamp := 20000000000, millis := 1 } = 999999 ∧
+    asMillis { timestamp := 20000000000, millis := 1 } = 20000000000001 ∧
+    asNanos { timestamp := 20000000000, millis := 1 } = 18446744073709551615 := by
   decide
 
 theorem c19_gen_formatters (tm : Tm) (f : Fmt) (short : Bool) : formatTextGen tm f short = formatText tm f short :=
